@@ -117,6 +117,19 @@ def run(ck, ix, tier):
         ck.check(norm(cfg.nodes[c].ast) == "return cls(*args)", "G-PROV", "_unpickle|all-fields-forwarded", f.loc(cfg.nodes[c].ast), "cls(*args)", f"`{cfg.nodes[c].text()}` does not forward all pickled fields")
     src = norm(f.node)
     ck.check("if isinstance(arg, UnitsContainer):" in src and "for name in arg:" in src, "G-DOM", "_unpickle|every-name-of-every-container", f.loc(), "every name of every container", "_unpickle no longer walks every name of every UnitsContainer argument")
+    # every name is parsed unconditionally: whether the registry still knows a prefixed unit is the registry's business
+    # (its tables change with contexts); a guard derived from a cache or from a membership test can go stale
+    for c in [x for x in walk_local(f.node) if isinstance(x, ast.Call) and call_name(x) == "parse_units"]:
+        guards, cur = [], getattr(c, "_parent", None)
+        inner_for = None
+        while cur is not None and cur is not f.node:
+            if isinstance(cur, ast.For) and inner_for is None:
+                inner_for = cur
+            if isinstance(cur, (ast.If, ast.Try, ast.While)) and inner_for is None:
+                guards.append(cur)
+            cur = getattr(cur, "_parent", None)
+        ck.check(inner_for is not None and not guards, "G-DOM", "_unpickle|names-parsed-unconditionally", f.loc(c), "each name of the container is parsed, unconditionally",
+                 f"`{norm(c)}` is guarded by `{norm(guards[0].test) if guards and isinstance(guards[0], ast.If) else 'a conditional'}`: a name that is skipped (e.g. because a cache still lists it) may no longer be registered and the unpickled object cannot be used")
     # container state
     uc, ph = ix.cls(U, "UnitsContainer"), ix.cls(U, "ParserHelper")
     g, s = uc.methods["__getstate__"], uc.methods["__setstate__"]
